@@ -30,6 +30,8 @@ pub fn status_code(e: &FailSafeReadError) -> (u64, Vec<String>) {
     }
 }
 
+static CFG_ORDER: std::sync::atomic::AtomicUsize = std::sync::atomic::AtomicUsize::new(0);
+
 pub struct Repaired {
     pub rows: Vec<Vec<u64>>,
     pub status: Option<u64>,
@@ -43,11 +45,18 @@ pub struct Repaired {
 pub fn repair_with<R: Read>(src: R, privs: &[StaticSecret], unauth: bool) -> Repaired {
     let res = catch(|| {
         let mut cfg = ArchiveReaderConfig::new();
-        cfg.add_private_keys(privs);
+        // the two setters commute for a caller: every other call selects the mode BEFORE giving the keys
+        let mode_first = CFG_ORDER.fetch_add(1, std::sync::atomic::Ordering::Relaxed) % 2 == 1;
+        if !mode_first {
+            cfg.add_private_keys(privs);
+        }
         if unauth {
             cfg.failsafe_return_data_even_unauthenticated();
         } else {
             cfg.failsafe_return_only_authenticated_data();
+        }
+        if mode_first {
+            cfg.add_private_keys(privs);
         }
         let mut fsr = ArchiveFailSafeReader::from_config(src, cfg).map_err(|e| format!("open: {e:?}"))?;
         let mut wcfg = ArchiveWriterConfig::new();
@@ -267,6 +276,20 @@ pub fn c05_cases(rng: &mut Rng, tier: &str, out: &mut Out) {
                     for (i, c) in built.contents.iter().enumerate() {
                         if r.files.iter().find(|f| f.0 == plan.names[i]).map(|f| &f.1) != Some(c) {
                             msg = Some(format!("undamaged archive: file {i} not recovered completely"));
+                        }
+                    }
+                    // the undamaged archive delivered by a pipe-like source (reads ending anywhere: inside a chunk,
+                    // at its end, inside its tag) is recovered as completely
+                    for q in [1usize, 2, 3, 7, 15, 16, 17, 63, 64, 65, 79, 81] {
+                        if msg.is_some() {
+                            break;
+                        }
+                        let sched: Vec<usize> = if q == 81 { (0..4000).map(|_| *rng.pick(&[1usize, 5, 11, 16, 40, 64, 80])).collect() } else { vec![q] };
+                        let t = repair_with(ThrottledReader::new(std::io::Cursor::new(built.bytes.clone()), sched), &built.privs, unauth);
+                        evals += 1;
+                        if t.crashed.is_some() || t.status != Some(12) || !t.unfinished.is_empty() || t.files != r.files {
+                            msg = Some(format!("undamaged archive from a source returning at most {q} bytes per read (81 = varying): status {:?}, {} unfinished, {} of {} bytes recovered",
+                                               t.status, t.unfinished.len(), t.files.iter().map(|f| f.1.len()).sum::<usize>(), built.contents.iter().map(|c| c.len()).sum::<usize>()));
                         }
                     }
                 }
@@ -607,4 +630,113 @@ pub fn witness_d6() -> Result<(), String> {
 
 pub fn witnesses() -> Vec<(&'static str, &'static str, fn() -> Result<(), String>)> {
     vec![("D4", "C05", witness_d4), ("D5", "C13", witness_d5), ("D6", "C14", witness_d6)]
+}
+
+
+/// A source serving `data` in reads of at most `sched[i]` bytes (last entry repeats) that answers
+/// `ErrorKind::Interrupted` ONCE at each read index listed in `intr` (the read is then repeated by
+/// whoever retries) - what a pipe or a socket under signals does.
+pub struct FlakyReader<'a> {
+    pub data: &'a [u8],
+    pub pos: usize,
+    pub sched: Vec<usize>,
+    pub calls: usize,
+    pub intr: Vec<usize>,
+}
+impl<'a> Read for FlakyReader<'a> {
+    fn read(&mut self, buf: &mut [u8]) -> std::io::Result<usize> {
+        let c = self.calls;
+        self.calls += 1;
+        if self.intr.contains(&c) {
+            return Err(std::io::Error::new(std::io::ErrorKind::Interrupted, "interrupted"));
+        }
+        let q = if self.sched.is_empty() { usize::MAX } else { self.sched[c.min(self.sched.len() - 1)].max(1) };
+        let k = q.min(buf.len()).min(self.data.len() - self.pos);
+        buf[..k].copy_from_slice(&self.data[self.pos..self.pos + k]);
+        self.pos += k;
+        Ok(k)
+    }
+}
+
+/// C02 over unusual but legal SOURCES and ARCHIVES:
+///  (a) prefixes delivered by a source that splits reads and reports interruptions (the repair result
+///      must still be sound: names of the original, contents prefixes, complete unless unfinished,
+///      end-of-data only if everything was recovered);
+///  (b) every cut of layer-less archives whose file ids are not 0,1,2.. in start order (remapped by
+///      +1, by a large constant, reversed) - model-compared (repair_plain takes any ids).
+pub fn c02_src_cases(rng: &mut Rng, tier: &str, out: &mut Out) {
+    let narch = if tier == "thorough" { 24 } else { 6 };
+    // (a)
+    for (ai, (plan, built)) in sweep_archives(rng, narch).iter().enumerate() {
+        let len = built.bytes.len();
+        let ncuts = if tier == "thorough" { 40 } else { 14 };
+        for ci in 0..ncuts {
+            let cut = if ci == 0 { len } else { rng.range(built.header_len as u64, len as u64) as usize };
+            for unauth in [false, true] {
+                if unauth && plan.layers & L_ENC == 0 {
+                    continue;
+                }
+                let q = *rng.pick(&[1usize, 2, 3, 7, 13, 100_000]);
+                let nintr = rng.range(1, 4) as usize;
+                // interruptions anywhere among the reads such a run makes (most land in block headers, where
+                // read_exact repeats the read; some in content, where the repair loop sees them)
+                let upper = (cut / q.min(64)).max(4) as u64 + 8;
+                let intr: Vec<usize> = (0..nintr).map(|_| rng.below(upper) as usize).collect();
+                let src = FlakyReader { data: &built.bytes[..cut], pos: 0, sched: vec![q], calls: 0, intr: intr.clone() };
+                let r = repair_with(src, &built.privs, unauth);
+                let oracle = oracle_c02(plan, built, &r, true);
+                out.case(&Case {
+                    id: format!("c02-src-a{ai}-c{ci}-u{}", u8::from(unauth)),
+                    model_fn: "",
+                    args: vec![],
+                    imp: json!(r.rows),
+                    oracle_ok: oracle.is_ok(),
+                    oracle_msg: oracle.err().map(|e| format!("source with reads of {q} bytes interrupted at read(s) {intr:?}, cut {cut}: {e}")).unwrap_or_default(),
+                    class: format!("flaky-source layers={} unauth={} quota={} status={:?}", plan.layers, unauth, q, r.status),
+                    nontrivial: r.status.is_some(),
+                    meta: json!({"archive": ai, "cut": cut, "len": len, "layers": plan.layers, "unauth": unauth, "quota": q, "interrupted_reads": intr}),
+                });
+            }
+        }
+    }
+    // (b)
+    let n = if tier == "thorough" { 12 } else { 3 };
+    let mut done = 0;
+    while done < n {
+        let mut plan = gen_plan(rng, 0);
+        if plan.pieces.is_empty() || plan.names.len() < 2 {
+            continue;
+        }
+        plan.recipients = 1;
+        plan.reader_key = 0;
+        let Ok(built) = build(rng, &plan) else { continue };
+        if built.bytes.len() > 900 {
+            continue;
+        }
+        let nf = plan.names.len() as u64;
+        let kind = done % 3;
+        let remapped = match kind {
+            0 => remap_ids(&built.bytes, built.header_len, |i| i + 1),
+            1 => remap_ids(&built.bytes, built.header_len, |i| i + (1 << 40) + 7),
+            _ => remap_ids(&built.bytes, built.header_len, |i| nf - 1 - i.min(nf - 1)),
+        };
+        let Some(bytes) = remapped else { continue };
+        let b2 = Built { bytes: bytes.clone(), header_len: built.header_len, key: built.key, nonce: built.nonce, privs: vec![], contents: built.contents.clone() };
+        for cut in built.header_len..=bytes.len() {
+            let r = repair_bytes(&bytes[..cut], &[], false);
+            let oracle = oracle_c02(&plan, &b2, &r, true);
+            out.case(&Case {
+                id: format!("c02-ids-{done}-cut{cut}"),
+                model_fn: if cfg!(feature = "scaled") { "repair_plain" } else { "" },
+                args: if cfg!(feature = "scaled") { vec![jbytes(&bytes[built.header_len..cut])] } else { vec![] },
+                imp: json!(r.rows),
+                oracle_ok: oracle.is_ok(),
+                oracle_msg: oracle.err().map(|e| format!("archive with remapped file ids (kind {kind}), cut {cut}: {e}")).unwrap_or_default(),
+                class: format!("remapped-ids kind={kind} status={:?}", r.status),
+                nontrivial: true,
+                meta: json!({"kind": kind, "cut": cut, "len": bytes.len(), "files": plan.names.len()}),
+            });
+        }
+        done += 1;
+    }
 }
